@@ -926,6 +926,7 @@ func c12LoadReplay(path string) []c12Call {
 func runC12(c *Ctx) {
 	rng := NewRng(c.Seed)
 	or := c.Oracle()
+	sliceInventory(c)
 	c.Res.Rule = "random histories of 1..25 calls of the real pkg/slice (all 29 functions; values built by literals, by " +
 		"make with spare capacity and by the package's own growth; arguments drawn from the pool, biased to values that " +
 		"share a backing array: PopLast/Tail results and their sources, then PushLast/PushHead/Append/Sort on them); after " +
